@@ -296,12 +296,45 @@ def evaluate_payload_template(input, context, template):
                 )
             template_string = args[0]
             args = args[1:]
-            try:
-                return template_string.format(*args)
-            except Exception as e:
+            if not isinstance(template_string, str):
                 raise IntrinsicFailure(
-                    "States.Format failed with {}.".format(e)
+                    "States.Format failed, arg[0] is not a string."
                 )
+            """
+            Replace each {} with the next argument and honour the \\{ and \\}
+            escapes for literal braces. Python's str.format() is deliberately
+            not used: its replacement fields allow attribute and index access
+            on the arguments (e.g. {0.__class__}), conversions and format
+            specs, none of which are part of States.Format.
+            """
+            result = []
+            next_arg = 0
+            i = 0
+            length = len(template_string)
+            while i < length:
+                c = template_string[i]
+                if c == "\\" and i + 1 < length and template_string[i + 1] in "{}":
+                    result.append(template_string[i + 1])
+                    i += 2
+                elif template_string.startswith("{}", i):
+                    if next_arg >= len(args):
+                        raise IntrinsicFailure(
+                            "States.Format failed, more {} than arguments."
+                        )
+                    value = args[next_arg]
+                    next_arg += 1
+                    if not isinstance(value, str):
+                        value = json.dumps(value)
+                    result.append(value)
+                    i += 2
+                elif c == "{" or c == "}":
+                    raise IntrinsicFailure(
+                        "States.Format failed, unescaped {} at {}.".format(c, i)
+                    )
+                else:
+                    result.append(c)
+                    i += 1
+            return "".join(result)
 
         def asl_intrinsic_StringToJson(args):
             if len(args) != 1:
